@@ -4,7 +4,7 @@ from . import c07_c08_flow as flow
 MODULE = "StorageModel.Properties.C07"
 THEOREMS = ["table_is_expected", "delivery_is_expected", "holder_plumbing_is_expected", "raised_only_grows", "op_error_surfaces",
             "op_failure_kind_surfaces", "no_false_success", "no_false_success_any_fault", "tx_atomic",
-            "tx_error_surfaces", "caller_error_surfaces", "pre_commit_error_surfaces",
+            "tx_error_surfaces", "caller_error_surfaces", "first_run_error_surfaces", "pre_commit_error_surfaces",
             "rejected_operation_surfaces", "tx_raised_surfaces", "tx_no_false_success", "history_refines_spec"]
 
 TABLE_OBLIGATIONS = [
@@ -34,7 +34,8 @@ RULE = ("histories of 1-4 transactions (Db.Update / Db.Batch, fresh or reused Mu
         "flow as plain error or RecordNotFoundError, index-stage veto by a custom boltz.Constraint registered with "
         "AddConstraint on the parent or on the child store in ProcessBeforeUpdate / ProcessAfterUpdate / "
         "ProcessBeforeDelete as plain error or RecordNotFoundError, injected FillEntity / PersistEntity error at "
-        "the n-th call, a tags map value the typed-bucket setters reject - unsupported type at depth 0/1/2, []string in a "
+        "the n-th call, an error / entity-constraint veto that strikes only the first time the transaction function runs "
+        "(a Db.Batch then commits on bbolt's re-run), a tags map value the typed-bucket setters reject - unsupported type at depth 0/1/2, []string in a "
         "list, empty / over-long key - with nothing injected, unparsable query) x Update and Batch, exhaustively; thorough tier also every body of two "
         "operations x every position x every kind; (b) sampled bodies of 2-5 operations with one failure at a "
         "random position; (c) random histories incl. nested Update calls, swallowed errors, reused contexts, up to "
